@@ -104,6 +104,9 @@ Definition spec_step (c : cfg) (r : rcache) (o : op1) : rcache * res outv :=
   | Len => (r, Ok (ONat (length (r_items r))))
   | EqDict d => (r, Ok (OBool (same_map d (r_items r))))
   | NeDict d => (r, Ok (OBool (negb (same_map d (r_items r)))))
+  | UpdateSelf f => (r_sets c r f, Ok ONone)         (* its own items change nothing; then the keyword pairs *)
+  | EqOther => (r, Ok (OBool false))                 (* a cache never equals something that is not a mapping *)
+  | NeOther => (r, Ok (OBool true))
   | PopItem | Iter | Items => (r, Raise (OtherExn 0))  (* relational: see spec_accept *)
   end.
 
@@ -183,6 +186,12 @@ Fixpoint spec_walk (c : cfg) (rh : list rcache) (steps : list (hop * obs)) : boo
       | None => false
       end
   end.
+
+(* the constructor: max_size must be positive (ValueError); on_miss must be
+   None or callable (TypeError); None = a cache is constructed *)
+Definition spec_ctor (max : nat) (on_miss_ok : bool) : option exn :=
+  if (max =? 0)%nat then Some ValueError
+  else if on_miss_ok then None else Some TypeError.
 
 (* LRI(max_size, values=init, on_miss): the initial values are assigned in order *)
 Definition r_init (c : cfg) (init : list (K * V)) : rcache := r_sets c r_empty init.
